@@ -81,6 +81,13 @@ def build_harness(name):
         o = os.path.join(d, os.path.basename(src) + '.o')
         cmds.append([cc] + cflags + ['-c', os.path.join(H, src), '-o', o])
         objs.append(o)
+    if spec.get('gen'):
+        import gens
+        seed = int(os.environ.get('VERIF_SEED', '1'))
+        for src in getattr(gens, spec['gen'])(d, seed):
+            o = src + '.o'
+            cmds.append([cc] + cflags + ['-c', src, '-o', o])
+            objs.append(o)
     cxx = 'g++' if cc == 'gcc' else 'clang++'
     for src in spec.get('cpp', []):
         o = os.path.join(d, os.path.basename(src) + '.o')
@@ -491,7 +498,8 @@ def _run_property(pid, tier, prop, seed, workdir, evid_path, t0):
                 starved.append('%s=%d (<%d)' % (k, classes.get(k, 0), mn))
     ev = dict(property_id=pid, tier=tier, seed=seed, level='exploration',
               coverage=dict(evaluations=total_eval, distinct_nontrivial=total_distinct, rule=prop['rule'],
-                            samples=samples, classes=classes, exhaustive=bool(all_exh and stages),
+                            samples=samples, classes=classes, exhaustive=bool(any(e['exhaustive'] for e in engines)),
+                            exhaustive_scope=[e['what'] or e['harness'] for e in engines if e['exhaustive']],
                             engines=engines, nontrivial_total=total_nt,
                             regression_cases_replayed=len(regress), inconclusive=inconclusive,
                             known_findings_hit=[k['what'] for k in knowns],
